@@ -1764,11 +1764,141 @@ def loop_range_path(tu, vd):
 
 
 def check_publication_order(ctx, W, tu, verdicts=None):
-    n = 0
+    """(iv) a task becomes reachable by a completion-guarded delete only after it has been handed to the scheduler.
+    Calls into functions of the same unit are inlined (task pointer and `this` bound at the call site)."""
+    results = []          # (fn, pname, has_submit, stored, reaches_shared, problems)
+    inlined = set()       # functions analysed as part of a caller
+
+    def norm(ap, prefix):
+        if ap is not None and ap and ap[0] == 'this' and prefix is not None:
+            return prefix + ap[1:]
+        return ap
+    tables = {}
+
+    def table(fn, pids, prefix):
+        key = (fn['id'], tuple(sorted(pids)), prefix)
+        if key in tables:
+            return tables[key]
+        g = tu.cfg(fn)
+        ev = {}
+        for b, i, x in g.stmts():
+            k = x.get('kind')
+            if k in ('CallExpr', 'CXXMemberCallExpr'):
+                sd, obj, args = tu.call_parts(x)
+                q = sd.get('q', '')
+                if k == 'CallExpr' and q in W.submit:
+                    if any(decl_ref(tu, a) in pids for a in args):
+                        ev[x['id']] = ('submit', x)
+                    continue
+            if k in ('CXXMemberCallExpr', 'CXXOperatorCallExpr') and X.call_parts(tu, x)[0].get('rec', '').startswith('std::'):
+                sd, obj, args = X.call_parts(tu, x)
+                name = sd.get('q', '').split('::')[-1]
+                if obj is None:
+                    continue
+                dst = norm(X.access_path(tu, obj), prefix)
+                if name in STORE_METHODS and any(decl_ref(tu, a) in pids for a in args):
+                    ev[x['id']] = ('store', x, dst)
+                    continue
+                srcs = []
+                if name in STORE_METHODS:       # element-wise copy: an element of another container (loop variable) is stored
+                    for a in args:
+                        v = decl_ref(tu, a)
+                        rp = norm(loop_range_path(tu, tu.node(v)), prefix) if v else None
+                        if rp is not None and rp != dst:
+                            srcs.append(rp)
+                if name in ('insert', 'assign', 'swap', 'operator=', 'merge', 'splice'):
+                    for a in args:
+                        for y in tu.walk(a):
+                            if y.get('kind') == 'CXXMemberCallExpr' and tu.sd(y).get('q', '').split('::')[-1] in ('begin', 'end', 'cbegin', 'cend'):
+                                sd2, obj2, a2 = tu.call_parts(y)
+                                ap2 = norm(X.access_path(tu, obj2), prefix) if obj2 is not None else None
+                                if ap2 is not None and ap2 != dst:
+                                    srcs.append(ap2)
+                        ap3 = norm(X.access_path(tu, a), prefix)
+                        if ap3 is not None and name in ('swap', 'operator=', 'merge', 'splice') and ap3 != dst:
+                            srcs.append(ap3)
+                if srcs:
+                    ev[x['id']] = ('flow', x, dst, srcs, name == 'swap')
+                continue
+            if k in ('CallExpr', 'CXXMemberCallExpr'):
+                sd, obj, args = tu.call_parts(x)
+                callee = tu.callee_fn(x)
+                if callee is not None and tu.cfg(callee) is not None and not callee['dep'] and callee['q'] not in W.submit \
+                        and not callee['q'].startswith('std::') and tu.fn_file(callee) == tu.fn_file(fn):
+                    np = {callee['params'][ai]['id'] for ai, a in enumerate(args)
+                          if ai < len(callee['params']) and decl_ref(tu, a) in pids}
+                    npfx = norm(X.access_path(tu, obj), prefix) if (k == 'CXXMemberCallExpr' and obj is not None) else None
+                    ev[x['id']] = ('call', x, callee, np, npfx)
+                elif any(decl_ref(tu, a) in pids for a in args) and sd.get('q') not in X.FORWARDERS:
+                    ev[x['id']] = ('escape', x, sd.get('q'))
+                continue
+            if k == 'CXXDeleteExpr' and tu.kids(x):
+                v = decl_ref(tu, tu.kids(x)[0])
+                rp = norm(loop_range_path(tu, tu.node(v)), prefix) if v else None
+                if rp is not None:
+                    ev[x['id']] = ('sweep', x, rp)
+        tables[key] = (g, ev)
+        return tables[key]
+
+    def run_fn(fn, pids, prefix, st0, sink, depth=0):
+        """exit states of fn entered with st0 = (submitted, holders, stored-anything)"""
+        if depth > 4:
+            return {st0}
+        g, ev = table(fn, pids, prefix)
+        pname = sink['pname']
+
+        def transfer(blk, idx, e, st):
+            if e[0] != 'S' or e[1] not in ev:
+                return [st]
+            sub, holders, stored = st
+            x = ev[e[1]]
+            if x[0] == 'submit':
+                sink['has_submit'] = True
+                return [(True, holders, stored)]
+            if x[0] == 'escape':
+                sink['escapes'].append('%s (%s)' % (x[2], tu.loc(x[1])))
+                return [st]
+            if x[0] == 'call':
+                inlined.add(x[2]['id'])
+                if not x[3] and not holders:
+                    return [st]         # neither receives the task nor can it meet it in a container
+                return sorted(run_fn(x[2], x[3], x[4], st, sink, depth + 1), key=repr)
+            newh = set(holders)
+            gained = []
+            if x[0] == 'store' and x[2] is not None:
+                newh.add(x[2])
+                gained.append(x[2])
+                stored = True
+            if x[0] == 'flow':
+                dst, srcs, sw = x[2], x[3], x[4]
+                if dst is not None and any(sp in holders for sp in srcs):
+                    newh.add(dst)
+                    gained.append(dst)
+                if sw and dst in holders:
+                    for sp in srcs:
+                        newh.add(sp)
+                        gained.append(sp)
+            if x[0] == 'sweep' and not sub and x[2] in holders:
+                sink['problems'].append(('swept-before-scheduled', 'the completion-guarded delete at %s sweeps a container that already holds '
+                                         'the task `%s`, which has not been handed to the scheduler yet on this path: its running count is '
+                                         'still 0, so it looks complete and is deleted before it ever runs' % (tu.loc(x[1]), pname), tu.loc(x[1])))
+            for ap in gained:
+                if is_shared_root(tu, ap[0]):
+                    sink['shared'] = True
+                    if not sub:
+                        sink['problems'].append(('published-before-scheduled', 'the task `%s` is put into the shared container `%s` at %s '
+                                                 'on a path where it has not been handed to the scheduler yet: until AddTaskSetToPipe increments it, '
+                                                 'its running count is 0, so another thread sweeping that container sees GetIsComplete() == true '
+                                                 'and deletes the task before it runs (use-after-free in the scheduler, closure never executed)'
+                                                 % (pname, tu.show(X.call_parts(tu, x[1])[1]) if X.call_parts(tu, x[1])[1] is not None else '?',
+                                                    tu.loc(x[1])), tu.loc(x[1])))
+            return [(sub, frozenset(newh), stored)]
+        exits, _r = X.exit_states(g, [st0], transfer)
+        return exits or {st0}
+
     for f in sorted(tu.functions.values(), key=lambda f: f['q']):
         if f['dep'] or tu.cfg(f) is None:
             continue
-        g = tu.cfg(f)
         decl = X.fn_decl(tu, f)
         cands = [(p['id'], p['name'], p['ct']) for p in f['params'] if '*' in p['ct']]
         for x in tu.walk(decl):
@@ -1778,117 +1908,429 @@ def check_publication_order(ctx, W, tu, verdicts=None):
         for pid, pname, pct in cands:
             if not any(r is not None and X.derived_from(tu, r, X.ENKI_COMPLETABLE) for r in X.record_of_type(tu, pct)):
                 continue
-            ev = {}
-            for b, i, x in g.stmts():
-                k = x.get('kind')
-                if k == 'CallExpr':
-                    sd, obj, args = tu.call_parts(x)
-                    if sd.get('q', '') in W.submit and any(decl_ref(tu, a) == pid for a in args):
-                        ev[x['id']] = ('submit', x)
-                elif k in ('CXXMemberCallExpr', 'CXXOperatorCallExpr'):
-                    sd, obj, args = X.call_parts(tu, x)
-                    name = sd.get('q', '').split('::')[-1]
-                    if obj is None or not sd.get('rec', '').startswith('std::'):
-                        continue
-                    dst = X.access_path(tu, obj)
-                    if name in STORE_METHODS and any(decl_ref(tu, a) == pid for a in args):
-                        ev[x['id']] = ('store', x, dst)
-                        continue
-                    srcs = []
-                    if name in STORE_METHODS:       # element-wise copy: an element of another container (loop variable) is stored
-                        for a in args:
-                            v = decl_ref(tu, a)
-                            rp = loop_range_path(tu, tu.node(v)) if v else None
-                            if rp is not None and rp != dst:
-                                srcs.append(rp)
-                    if name in ('insert', 'assign', 'swap', 'operator=', 'merge', 'splice'):
-                        for a in args:
-                            for y in tu.walk(a):
-                                if y.get('kind') == 'CXXMemberCallExpr' and tu.sd(y).get('q', '').split('::')[-1] in ('begin', 'end', 'cbegin', 'cend'):
-                                    sd2, obj2, a2 = tu.call_parts(y)
-                                    ap2 = X.access_path(tu, obj2) if obj2 is not None else None
-                                    if ap2 is not None and ap2 != dst:
-                                        srcs.append(ap2)
-                            ap3 = X.access_path(tu, a)
-                            if ap3 is not None and name in ('swap', 'operator=', 'merge', 'splice') and ap3 != dst:
-                                srcs.append(ap3)
-                    if srcs:
-                        ev[x['id']] = ('flow', x, dst, srcs, name == 'swap')
-                elif k == 'CXXDeleteExpr' and tu.kids(x):
-                    v = decl_ref(tu, tu.kids(x)[0])
-                    rp = loop_range_path(tu, tu.node(v)) if v else None
-                    if rp is not None:
-                        ev[x['id']] = ('sweep', x, rp)
-            stores = [e for e in ev.values() if e[0] == 'store']
-            if not stores:
+            sink = dict(pname=pname, has_submit=False, shared=False, problems=[], escapes=[])
+            # `this` of a member function analysed on its own stays `this` (shared: reachable from other threads)
+            exits = run_fn(f, {pid}, None, (False, frozenset(), False), sink)
+            if not any(st[2] for st in exits):
                 continue
-            n += 1
-            name = short_name(f['q'])
-            inst = '[%s] %s: task `%s`' % (tu.config, f['q'].replace('rkcommon::tasking::', ''), pname) + W.tag
-            has_submit = any(e[0] == 'submit' for e in ev.values())
-            problems = []
-
-            def transfer(blk, idx, e, st):
-                if e[0] != 'S' or e[1] not in ev:
-                    return [st]
-                sub, holders = st
-                x = ev[e[1]]
-                if x[0] == 'submit':
-                    return [(True, holders)]
-                newh = set(holders)
-                gained = []
-                if x[0] == 'store' and x[2] is not None:
-                    newh.add(x[2])
-                    gained.append(x[2])
-                if x[0] == 'flow':
-                    dst, srcs, sw = x[2], x[3], x[4]
-                    if dst is not None and any(sp in holders for sp in srcs):
-                        newh.add(dst)
-                        gained.append(dst)
-                    if sw and dst in holders:
-                        for sp in srcs:
-                            newh.add(sp)
-                            gained.append(sp)
-                if x[0] == 'sweep' and not sub and x[2] in holders:
-                    problems.append(('swept-before-scheduled', 'the completion-guarded delete at %s sweeps a container that already holds '
-                                     'the task `%s`, which has not been handed to the scheduler yet on this path: its running count is '
-                                     'still 0, so it looks complete and is deleted before it ever runs' % (tu.loc(x[1]), pname), tu.loc(x[1])))
-                if not sub:
-                    for ap in gained:
-                        if is_shared_root(tu, ap[0]):
-                            problems.append(('published-before-scheduled', 'the task `%s` is put into the shared container `%s` at %s on a '
-                                             'path where it has not been handed to the scheduler yet: until AddTaskSetToPipe increments it, '
-                                             'its running count is 0, so another thread sweeping that container sees GetIsComplete() == true '
-                                             'and deletes the task before it runs (use-after-free in the scheduler, closure never executed)'
-                                             % (pname, tu.show(tu.call_parts(x[1])[1]) if x[1].get('kind') == 'CXXMemberCallExpr' else '?',
-                                                tu.loc(x[1])), tu.loc(x[1])))
-                return [(sub, frozenset(newh))]
-            reaches_shared = []
-
-            def probe(blk, idx, e, st):       # same flow, ignoring submits: does the task reach a shared container at all?
-                out = transfer(blk, idx, e, (False, st[1]))
-                return [(False, out[0][1])]
-            if has_submit:
-                X.exit_states(g, [(False, frozenset())], transfer)
+            # without a submit in the call tree the order is unknown: probe ignoring submits was done implicitly (never submitted)
+            results.append((f, pname, sink))
+    n = 0
+    for f, pname, sink in results:
+        name = short_name(f['q'])
+        has_submit = sink['has_submit']
+        if not has_submit and f['id'] in inlined:
+            continue        # a helper: decided in the context of its callers, which were analysed with it inlined
+        n += 1
+        inst = '[%s] %s: task `%s`' % (tu.config, f['q'].replace('rkcommon::tasking::', ''), pname) + W.tag
+        problems = sink['problems'] if has_submit else []
+        if verdicts is not None:
+            verdicts.append((name, bool(problems) if has_submit else None))
+            continue
+        if not has_submit:
+            if sink['shared']:
+                ctx.undecided(R6, inst, 'the task is stored into a shared container but neither this function nor anything it calls hands '
+                              'it to the scheduler, and no analysed caller does: cannot see whether it was scheduled before it became '
+                              'reachable by the reaper', tu.fn_loc(f))
             else:
-                exits, _r = X.exit_states(g, [(False, frozenset())], probe)
-                reaches_shared = [1 for sub, hs in exits if any(is_shared_root(tu, ap[0]) for ap in hs)]
-            if verdicts is not None:
-                verdicts.append((name, bool(problems) if has_submit else None))
-                continue
-            if not has_submit:
-                if reaches_shared:
-                    ctx.undecided(R6, inst, 'the task is stored into a shared container but this function does not itself hand it to the '
-                                  'scheduler: cannot see whether it was scheduled before it became reachable by the reaper', tu.fn_loc(f))
-                else:
-                    n -= 1
-                continue
-            if problems:
-                for kind, text, loc in sorted(set(problems)):
-                    ctx.violation(R6, inst, text, loc, key='%s|%s|%s|%s' % (R6, tu.fn_file(f), name, kind))
-            else:
-                ctx.ok(R6, inst, 'handed to the scheduler before it is stored where a completion-guarded delete can reach it', tu.fn_loc(f))
+                n -= 1
+            continue
+        if problems:
+            for kind, text, loc in sorted(set(problems)):
+                ctx.violation(R6, inst, text, loc, key='%s|%s|%s|%s' % (R6, tu.fn_file(f), name, kind))
+        elif sink['escapes'] and not sink['shared']:
+            n -= 1
+        else:
+            ctx.ok(R6, inst, 'handed to the scheduler before it is stored where a completion-guarded delete can reach it', tu.fn_loc(f))
     return n
+
+# ================================================================================================
+#  R-C02-7 no lost wake-up: register as waiter, re-check for work, then sleep; publish a task, then wake
+# ================================================================================================
+SEM_WAIT, SEM_SIGNAL, ATOMIC_ADD = 'enki::SemaphoreWait', 'enki::SemaphoreSignal', 'enki::AtomicAdd'
+R7 = 'R-C02-7'
+
+
+def reaches(tu, pred):
+    """ids of functions (with a body in tu) that call, directly or through other functions of tu, a callee satisfying pred"""
+    calls = {}
+    direct = set()
+    for f in tu.functions.values():
+        if f['dep'] or tu.cfg(f) is None:
+            continue
+        cs = set()
+        for b, i, x in tu.cfg(f).stmts():
+            if x.get('kind') in X.CALLS:
+                q = tu.sd(x).get('q', '')
+                if pred(q):
+                    direct.add(f['id'])
+                c = tu.callee_fn(x)
+                if c is not None:
+                    cs.add(c['id'])
+        calls[f['id']] = cs
+    out = set(direct)
+    changed = True
+    while changed:
+        changed = False
+        for fid, cs in calls.items():
+            if fid not in out and cs & out:
+                out.add(fid)
+                changed = True
+    return out
+
+
+def r7_name(f):
+    n = short_name(f['q'])
+    return n[len('enki::'):] if n.startswith('enki::') else n
+
+
+RX_SYNC_RMW = re.compile(r'^__sync_(fetch_and_\w+|\w+_and_fetch|val_compare_and_swap|bool_compare_and_swap)$')
+FULL_FENCE_FNS = {'__sync_synchronize', '_mm_mfence', 'enki::AtomicAdd', 'enki::AtomicCompareAndSwap', 'enki::AtomicCompareAndSwapPtr'}
+PUBLISH_METHODS = ('WriterTryWriteFront', 'WriterWriteFront')
+
+
+def is_full_fence(tu, x):
+    """a full (store-load) barrier: seq_cst fence, __sync_synchronize, or an atomic read-modify-write. Compiler-only barriers
+    (asm volatile("":::"memory")) and volatile accesses are not."""
+    k = x.get('kind')
+    if k == 'CallExpr':
+        sd, obj, args = tu.call_parts(x)
+        q = sd.get('q', '')
+        if q in FULL_FENCE_FNS or RX_SYNC_RMW.match(q):
+            return True
+        if q == 'std::atomic_thread_fence' and args:
+            return const_value(tu, args[0]) == 5
+        return False
+    a = atomic_op(tu, x)
+    if a is not None and a[0] == 'rmw':
+        sd, obj, args = X.call_parts(tu, x)
+        orders = [const_value(tu, y) for y in args[1:]] if len(args) > 1 else []
+        return all(o in (None, 5) for o in orders) if orders else True
+    return False
+
+
+def check_publish_fence(ctx, W, tu, wake_fields, verdicts=None):
+    """between the publication of a task (pipe / pinned-list write) and every plain load of the waiter count on the wake side there
+    is a full fence on every path (callees inlined): the register/re-check handshake is a store->load pattern on both sides"""
+    memo, busy = {}, set()
+    findings = {}        # reading function id -> (fn, read node, publishing function, publish node)
+
+    def run(fn, st0, origin, depth=0):
+        key = (fn['id'], st0[0])
+        if key in memo:
+            return memo[key]
+        if key in busy or depth > 6:
+            return {st0}
+        busy.add(key)
+        g = tu.cfg(fn)
+        pubs = {}
+        for b, i, x in g.stmts():
+            if x.get('kind') == 'CXXMemberCallExpr' and tu.sd(x).get('q', '').split('::')[-1] in PUBLISH_METHODS:
+                pubs[x['id']] = x
+
+        def transfer(blk, idx, e, st):
+            if e[0] != 'S':
+                return [st]
+            x = tu.node(e[1])
+            if x is None:
+                return [st]
+            if x['id'] in pubs:
+                return [('unfenced', (fn['id'], x['id']))]
+            if is_full_fence(tu, x):
+                return [('fenced', None)] if st[0] == 'unfenced' else [st]
+            if x.get('kind') == 'MemberExpr' and 'fi' in tu.sd(x) and (fn.get('recid'), member_of_this(tu, x)) in wake_fields \
+                    and st[0] == 'unfenced':
+                p = tu.par(x)
+                if p is not None and p.get('kind') == 'ImplicitCastExpr' and p.get('castKind') == 'LValueToRValue':
+                    findings.setdefault(fn['id'], (fn, x, st[1]))
+                return [st]
+            if x.get('kind') in X.CALLS:
+                c = tu.callee_fn(x)
+                if c is not None and tu.cfg(c) is not None and not c['dep'] and c['id'] != fn['id'] and \
+                        tu.fn_file(c).endswith(('.cpp', '.cc')) :
+                    return sorted(run(c, st, origin, depth + 1), key=repr)
+            return [st]
+
+        def refine(blk, si, st):      # a failed TryWrite published nothing
+            if st[0] != 'unfenced' or not blk.cond or len(blk.succ) != 2 or st[1] is None or st[1][0] != fn['id']:
+                return [st]
+            c = core(tu, tu.node(blk.cond))
+            pol = 1
+            while c is not None and c.get('kind') == 'UnaryOperator' and c.get('opcode') == '!':
+                pol = -pol
+                c = core(tu, tu.kids(c)[0])
+            if c is not None and c.get('id') == st[1][1] and tu.sd(c).get('q', '').endswith('TryWriteFront'):
+                return [st] if ((si == 0) == (pol == 1)) else [('nopub', None)]
+            return [st]
+        exits, _r = X.exit_states(g, [st0], transfer, refine)
+        busy.discard(key)
+        memo[key] = exits or {st0}
+        return memo[key]
+
+    publishers = []
+    for f in sorted(tu.functions.values(), key=lambda f: f['q']):
+        if f['dep'] or tu.cfg(f) is None:
+            continue
+        if any(x.get('kind') == 'CXXMemberCallExpr' and tu.sd(x).get('q', '').split('::')[-1] in PUBLISH_METHODS
+               for b, i, x in tu.cfg(f).stmts()):
+            publishers.append(f)
+            run(f, ('nopub', None), f)
+    n = 0
+    by_reader = {}
+    for fid, (fn, x, pub) in findings.items():
+        by_reader[fid] = (fn, x, pub)
+    for f in publishers:
+        n += 1
+    if verdicts is not None:
+        for f in publishers:
+            # a publisher is bad if a finding originates from one of its publications
+            bad = any(pub is not None and pub[0] == f['id'] for fn, x, pub in findings.values())
+            verdicts.append((r7_name(f) + '#fence', bad))
+        return n
+    for fid, (fn, x, pub) in sorted(findings.items(), key=lambda kv: kv[1][0]['q']):
+        pf = tu.functions.get(pub[0]) if pub else None
+        inst = '[%s] %s: reads the waiter count after a task was published' % (tu.config, fn['q']) + W.tag
+        ctx.violation(R7, inst, 'the waiter count `%s` is read with a plain load at %s on a path from the publication of a task (%s at %s) '
+                      'that contains no full fence (std::atomic_thread_fence(seq_cst), __sync_synchronize() or an atomic read-modify-write; '
+                      'compiler barriers and volatile do not count): the store that publishes the task can still sit in the store buffer '
+                      'while a stale 0 is read, the registering worker meanwhile saw an empty pipe -> nobody is woken and the task stays in '
+                      'the pipe (lost wake-up)' % (x.get('name'), tu.loc(x), tu.show(tu.node(pub[1])) if pub else '?',
+                                                   tu.loc(tu.node(pub[1])) if pub else '?'), tu.loc(x),
+                      key='%s|%s|%s|no-full-fence-before-waiter-count' % (R7, tu.fn_file(fn), r7_name(fn)),
+                      path=['%s: task published by %s' % (tu.loc(tu.node(pub[1])), pf['q'] if pf else '?'),
+                            '%s: waiter count loaded in %s without an intervening full fence' % (tu.loc(x), fn['q'])] if pub else [])
+    bad_pubs = {pub[0] for fn, x, pub in findings.values() if pub}
+    for f in publishers:
+        if f['id'] not in bad_pubs:
+            ctx.ok(R7, '[%s] %s: publication -> waiter-count read' % (tu.config, f['q']) + W.tag,
+                   'every path from a task publication in this function to a load of the waiter count passes a full fence', tu.fn_loc(f))
+    return n
+
+
+def check_wake_protocol(ctx, W, tu, verdicts=None):
+    n_sleep = n_pub = 0
+    checkers = reaches(tu, lambda q: q.endswith('::IsPipeEmpty'))
+    signalers = reaches(tu, lambda q: q == SEM_SIGNAL)
+    # fields whose value decides how many sleepers the wake side posts
+    wake_fields = {}
+    for f in tu.functions.values():
+        if f['dep'] or tu.cfg(f) is None:
+            continue
+        for b, i, x in tu.cfg(f).stmts():
+            if x.get('kind') == 'CallExpr' and tu.sd(x).get('q') == SEM_SIGNAL:
+                sd, obj, args = tu.call_parts(x)
+                if len(args) >= 2:
+                    for y in tu.walk(args[1]):
+                        if y.get('kind') == 'MemberExpr' and 'fi' in tu.sd(y) and member_of_this(tu, y):
+                            wake_fields.setdefault((f.get('recid'), member_of_this(tu, y)), y.get('name'))
+
+    def is_check(x):
+        if x.get('kind') not in X.CALLS:
+            return False
+        if tu.sd(x).get('q', '').endswith('::IsPipeEmpty'):
+            return True
+        c = tu.callee_fn(x)
+        return c is not None and c['id'] in checkers
+
+    def counter_event(f, x):
+        """(field id, +1|-1) if x changes a waiter count of f's object"""
+        if x.get('kind') == 'CallExpr' and tu.sd(x).get('q') == ATOMIC_ADD:
+            sd, obj, args = tu.call_parts(x)
+            if len(args) >= 2:
+                a0 = X.addr_of(tu, args[0])
+                m = member_of_this(tu, a0) if a0 is not None else None
+                v = const_value(tu, args[1])
+                if m is not None and (f.get('recid'), m) in wake_fields and v:
+                    return m, (1 if v > 0 else -1)
+        if x.get('kind') == 'UnaryOperator' and x.get('opcode') in ('++', '--'):
+            m = member_of_this(tu, tu.kids(x)[0])
+            if m is not None and (f.get('recid'), m) in wake_fields:
+                return m, (1 if x['opcode'] == '++' else -1)
+        return None
+
+    for f in sorted(tu.functions.values(), key=lambda f: f['q']):
+        if f['dep'] or tu.cfg(f) is None:
+            continue
+        g = tu.cfg(f)
+        nodes = [(b, i, x) for b, i, x in g.stmts()]
+        name = r7_name(f)
+        file = tu.fn_file(f)
+        # ---------------- sleep side
+        waits = [x for b, i, x in nodes if x.get('kind') == 'CallExpr' and tu.sd(x).get('q') == SEM_WAIT]
+        if waits:
+            n_sleep += 1
+            inst = '[%s] %s: sleeps on a semaphore' % (tu.config, f['q']) + W.tag
+            regs = [(x, counter_event(f, x)) for b, i, x in nodes if counter_event(f, x)]
+            ups = [x for x, ce in regs if ce[1] > 0]
+            has_check = any(is_check(x) for b, i, x in nodes)
+            if not ups:
+                if verdicts is not None:
+                    verdicts.append((name, None))
+                else:
+                    ctx.undecided(R7, inst, 'the function blocks on a semaphore but does not register in a waiter count that the wake side '
+                                  '(SemaphoreSignal) reads: wake-up protocol not recognised', tu.fn_loc(f))
+            else:
+                cname = wake_fields[(f.get('recid'), regs[0][1][0])]
+                found = []
+                # a loop over the pipes that contains the check counts as the check when its header is passed (zero pipes: vacuous)
+                check_headers = set()
+                preds = g.preds()
+                chk_blocks = {b.id for b, i, x in nodes if is_check(x)}
+                for t, h in g.back_edges():
+                    body, work = {h, t}, [t]
+                    while work:
+                        y = work.pop()
+                        for pz in preds.get(y, ()):
+                            if pz not in body:
+                                body.add(pz)
+                                work.append(pz)
+                    if body & chk_blocks:
+                        check_headers.add(h)
+
+                def transfer(blk, idx, e, st):
+                    if e[0] != 'S':
+                        return [st]
+                    x = tu.node(e[1])
+                    if x is None:
+                        return [st]
+                    reg, chk = st
+                    if blk.id in check_headers and reg:
+                        chk = 1
+                        st = (reg, chk)
+                    ce = counter_event(f, x)
+                    if ce:
+                        return [(1, 0)] if ce[1] > 0 else [(0, 0)]
+                    if is_check(x) and reg:
+                        return [(reg, 1)]
+                    if x.get('kind') == 'CallExpr' and tu.sd(x).get('q') == SEM_WAIT:
+                        found.append((st, x))
+                    return [st]
+                X.exit_states(g, [(0, 0)], transfer)
+                problems = []
+                for x, ce in regs:
+                    if ce[1] > 0 and not is_full_fence(tu, x):
+                        problems.append(('registration-not-a-full-fence', 'the thread registers in `%s` at %s with a plain (non read-modify-write) '
+                                         'increment: without a full fence the following look at the pipes can be satisfied before the '
+                                         'registration is visible to a publisher (lost wake-up), and concurrent registrations are lost'
+                                         % (cname, tu.loc(x)), tu.loc(x)))
+                for (reg, chk), x in found:
+                    if not reg:
+                        problems.append(('sleeps-unregistered', 'the thread blocks in SemaphoreWait at %s on a path where it has not registered in '
+                                         '`%s`: a task published now finds no waiter to wake (WakeThreads posts `%s` times) and stays in the '
+                                         'pipe while every worker sleeps' % (tu.loc(x), cname, cname), tu.loc(x)))
+                    elif not chk:
+                        problems.append(('recheck-before-register', 'the thread registers in `%s` only after its last look at the pipes%s and then '
+                                         'blocks in SemaphoreWait at %s: a task published between that look and the registration sees zero '
+                                         'waiters, posts nothing, and the thread sleeps with the task in the pipe (lost wake-up). The order must '
+                                         'be: register, re-check for work, sleep' % (cname, '' if has_check else ' (there is none in this function)',
+                                                                                    tu.loc(x)), tu.loc(x)))
+                if verdicts is not None:
+                    verdicts.append((name, bool(problems)))
+                elif problems:
+                    for kind, text, loc in sorted(set(problems)):
+                        ctx.violation(R7, inst, text, loc, key='%s|%s|%s|%s' % (R7, file, name, kind))
+                elif not found:
+                    ctx.undecided(R7, inst, 'SemaphoreWait is not reachable in the CFG', tu.fn_loc(f))
+                else:
+                    ctx.ok(R7, inst, 'on every path to SemaphoreWait: `%s` incremented, then the pipes re-checked, then sleep' % cname, tu.fn_loc(f))
+        # ---------------- publish side
+        writes = [x for b, i, x in nodes if x.get('kind') == 'CXXMemberCallExpr' and tu.sd(x).get('q', '').endswith('::WriterTryWriteFront')]
+        if writes and f['id'] in signalers | {f['id']}:
+            n_pub += 1
+            inst = '[%s] %s: publishes a task to a pipe' % (tu.config, f['q']) + W.tag
+            wids = {x['id'] for x in writes}
+            # variable that receives the success flag of a write
+            okvar = {}
+            for x in writes:
+                p = tu.par(x)
+                hops = 0
+                while p is not None and hops < 4 and p.get('kind') in ('ImplicitCastExpr', 'ParenExpr', 'ExprWithCleanups'):
+                    p = tu.par(p)
+                    hops += 1
+                if p is not None and p.get('kind') == 'VarDecl':
+                    okvar[x['id']] = p['id']
+                elif p is not None and p.get('kind') == 'BinaryOperator' and p.get('opcode') == '=':
+                    d = decl_ref(tu, tu.kids(p)[0])
+                    if d:
+                        okvar[x['id']] = d
+            problems, und = [], []
+
+            def is_wake(x):
+                if x.get('kind') not in X.CALLS:
+                    return False
+                if tu.sd(x).get('q') == SEM_SIGNAL:
+                    return True
+                c = tu.callee_fn(x)
+                return c is not None and c['id'] in signalers and c['id'] != f['id']
+
+            def ptransfer(blk, idx, e, st):
+                if e[0] != 'S':
+                    return [st]
+                x = tu.node(e[1])
+                if x is None:
+                    return [st]
+                if x['id'] in wids:
+                    if st[0] == 'need':
+                        problems.append(('published-without-wake', 'a task written to the pipe at %s is not followed by a wake-up of the '
+                                         'sleeping workers before the next write' % tu.loc(tu.node(st[1])), tu.loc(tu.node(st[1]))))
+                    return [('pending', x['id'])]
+                if is_wake(x) and st[0] in ('need', 'pending', 'maybe'):
+                    return [('none', None)]
+                return [st]
+
+            def prefine(blk, si, st):
+                if st[0] != 'pending' or not blk.cond or len(blk.succ) != 2:
+                    return [st]
+                c = core(tu, tu.node(blk.cond))
+                pol = 1
+                while c is not None and c.get('kind') == 'UnaryOperator' and c.get('opcode') == '!':
+                    pol = -pol
+                    c = core(tu, tu.kids(c)[0])
+                hit = c is not None and (c.get('id') == st[1] or
+                                         (c.get('kind') == 'DeclRefExpr' and c.get('referencedDecl', {}).get('id') == okvar.get(st[1])))
+                if not hit:
+                    return [st]
+                success = (si == 0) == (pol == 1)
+                return [('need', st[1])] if success else [('none', None)]
+            exits, _r = X.exit_states(g, [('none', None)], ptransfer, prefine)
+            for st in sorted(exits, key=repr):
+                if st[0] == 'need':
+                    problems.append(('published-without-wake', 'on the path where the task was written to the pipe at %s the function returns '
+                                     'without waking a sleeping worker (no SemaphoreSignal / WakeThreads after the write): the task stays in '
+                                     'the pipe until somebody else schedules or waits' % tu.loc(tu.node(st[1])), tu.loc(tu.node(st[1]))))
+                elif st[0] == 'pending':
+                    und.append('the success of the pipe write at %s is not tested in a recognised way and no wake-up follows' % tu.loc(tu.node(st[1])))
+            if verdicts is not None:
+                verdicts.append((name, True if problems else (None if und else False)))
+            else:
+                for u in sorted(set(und)):
+                    ctx.undecided(R7, inst, u, tu.fn_loc(f))
+                for kind, text, loc in sorted(set(problems)):
+                    ctx.violation(R7, inst, text, loc, key='%s|%s|%s|%s' % (R7, file, name, kind))
+                if not und and not problems:
+                    ctx.ok(R7, inst, 'every successful pipe write is followed by a wake-up (which reads the waiter count after the write)',
+                           tu.fn_loc(f))
+    n_f = check_publish_fence(ctx, W, tu, wake_fields, verdicts=verdicts)
+    return n_sleep, n_pub + (n_f if verdicts is None else 0)
+
+
+def note_wake_fences(ctx, W):
+    """not a verdict: what the ordering analysis sees on the publish side of the handshake (reported as a note)"""
+    tu = W.scheduler
+    for f in tu.functions.values():
+        if f['dep'] or tu.cfg(f) is None or not f['q'].endswith('::WakeThreads'):
+            continue
+        plain = []
+        for b, i, x in tu.cfg(f).stmts():
+            if x.get('kind') == 'MemberExpr' and 'fi' in tu.sd(x) and member_of_this(tu, x):
+                p = tu.par(x)
+                if p is not None and p.get('kind') == 'ImplicitCastExpr' and p.get('castKind') == 'LValueToRValue':
+                    plain.append('%s (%s, %s)' % (x.get('name'), tu.sd(x).get('ct'), tu.loc(x)))
+        if plain:
+            ctx.note('wake side %s reads the waiter count with plain volatile loads: %s; the pipe write index is published by a plain '
+                     'volatile store after a compiler-only barrier, so no StoreLoad fence separates publish and count read (the sleep side '
+                     'registers with __sync_fetch_and_add, a full fence). Not a verdict of this check.'
+                     % (short_name(f['q']), ', '.join(sorted(set(plain))[:3])))
 
 
 def check_wait_drains(ctx, W):
@@ -1943,6 +2385,12 @@ EXPECT_PUBLISH = {'rkverif::c02w::publishThenSchedule': True, 'rkverif::c02w::sc
                   'rkverif::c02w::sweepThenSchedule': True}
 EXPECT_RESULT_USE = {'rkverif::c02w::MovesOut': 'result-moved-out', 'rkverif::c02w::Copies': None}
 EXPECT_RUN = {'rkverif::c02w::detachedRun': False, 'rkverif::c02w::runAndWait': True, 'rkverif::c02w::runMaybeWait': False}
+EXPECT_HANDSHAKE = {'rkverif::c02w::Handshake::sleepRegisteredFirst': False, 'rkverif::c02w::Handshake::sleepCheckedFirst': True,
+                    'rkverif::c02w::Handshake::sleepUnregistered': True, 'rkverif::c02w::Handshake::publishThenWake': False,
+                    'rkverif::c02w::Handshake::publishNoWake': True, 'rkverif::c02w::Handshake::wakeThenPublish': None,
+                    'rkverif::c02w::Handshake::publishFenceThenWake': False, 'rkverif::c02w::Handshake::sleepPlainIncrement': True,
+                    'rkverif::c02w::Handshake::publishThenWake#fence': True, 'rkverif::c02w::Handshake::publishFenceThenWake#fence': False,
+                    'rkverif::c02w::Handshake::publishNoWake#fence': False, 'rkverif::c02w::Handshake::wakeThenPublish#fence': False}
 EXPECT_DTOR = {'rkverif::c02w::StartsTooEarly': False, 'rkverif::c02w::StartsLast': False, 'rkverif::c02w::NeverWaits': True,
                'rkverif::c02w::MovesOut': False, 'rkverif::c02w::Copies': False}
 
@@ -1999,6 +2447,11 @@ def check_witness(ctx, W, active_unused=None):
             got[nm] = bool(runs) and all(group_is_waited(tb, f, e) for e in runs)
     if got != EXPECT_RUN:
         bad.append('task_group run-needs-wait detector: expected %s, got %s' % (EXPECT_RUN, got))
+    v = []
+    check_wake_protocol(ctx, W, tu, verdicts=v)
+    got = {k: c for k, c in v if k.startswith('rkverif::c02w::Handshake::')}
+    if got != EXPECT_HANDSHAKE:
+        bad.append('sleep/wake handshake detector: expected %s, got %s' % (EXPECT_HANDSHAKE, got))
     for b in bad:
         ctx.broken('witness/c02_tasksets.cpp%s: %s' % (W.tag, b))
     if not bad:
@@ -2042,8 +2495,9 @@ def run_world(ctx, W):
     for tu in (tui, W.tasksys, W.scheduler):
         check_task_deletes(ctx, W, tu, handled if tu is tui else set())
         check_publication_order(ctx, W, tu)
+    n7s, n7p = check_wake_protocol(ctx, W, W.scheduler)
     check_witness(ctx, W)
-    return dict(n1=n1 + n_sub, names=names, n2=n2, n3=n3, n4=n4, n5=n5, n6=n6, nsites=nsites)
+    return dict(n7s=n7s, n7p=n7p, n1=n1 + n_sub, names=names, n2=n2, n3=n3, n4=n4, n5=n5, n6=n6, nsites=nsites)
 
 
 def floors(ctx, r, tag=''):
@@ -2060,6 +2514,8 @@ def floors(ctx, r, tag=''):
     ctx.floor(R5, r['n5'], 8, 'async<IntJob>, async<StringJob&> x 4 backends' + tag)
     ctx.floor(R6, r['n6'], 5, 'ExecuteRange overrides: schedule_internal x 3, AsyncTaskImpl, parallel_for_internal' + tag)
     ctx.floor(R6, r['nsites'], 2, 'ExecuteRange call sites in TaskScheduler.cpp: 3' + tag)
+    ctx.floor(R7, r['n7s'], 1, 'functions of the scheduler that block on the new-task semaphore: WaitForTasks' + tag)
+    ctx.floor(R7, r['n7p'], 1, 'functions of the scheduler that publish a task to a pipe: SplitAndAddTask' + tag)
 
 
 def run(ctx):
@@ -2078,7 +2534,9 @@ def run(ctx):
     ctx.assume('tbb::task_arena::enqueue, tbb::task_group::run, std::thread and the enkiTS pipe invoke a submitted callable exactly once '
                '(backend contract; the enkiTS partition/pipe bookkeeping is the subject of C01/C12)')
     ctx.assume('std::packaged_task / std::future deliver the value of the invoked callable (standard library contract)')
-    ctx.assume('backend liveness: an enqueued task is eventually run')
+    ctx.describe(R7, 'enkiTS sleep/wake handshake: a worker registers in the waiter count, then re-checks the pipes, then sleeps; a '
+                     'publisher writes the task to the pipe, then wakes (reading the waiter count after the write)')
+    ctx.assume('backend liveness beyond the sleep/wake handshake order (fairness of TBB / the OS scheduler, hardware store-load ordering)')
     W = World(ctx)
     r = run_world(ctx, W)
     floors(ctx, r)
